@@ -15,7 +15,7 @@ import sexp
 import gtwrap.interface_parser as parser
 import gtwrap.template_instantiator as inst
 
-TPL_PATH = '/repo/gtwrap/matlab_wrapper/matlab_wrapper.tpl'
+TPL_PATH = common.REPO + '/gtwrap/matlab_wrapper/matlab_wrapper.tpl'
 TPL_TEXT = "#include <gtwrap/matlab.h>\n#include <map>\n"
 
 
@@ -135,7 +135,7 @@ def wrapper_cpp(tree, module_name):
 
 def gen_cases(tier, seed, n_quick, n_thorough, profile=None, tag='ml'):
     out = []
-    for f in sorted(glob.glob('/repo/tests/fixtures/*.i')):
+    for f in sorted(glob.glob(common.REPO + '/tests/fixtures/*.i')):
         out.append(('fixture:' + os.path.basename(f), open(f).read()))
     for f in sorted(glob.glob(os.path.join(common.VERIF, 'corpus', 'matlab', '*.i'))):
         out.append(('corpus:' + os.path.basename(f), open(f).read()))
